@@ -226,6 +226,28 @@ func ruleC20(c *Ctx) {
 				stE, whyE = broken, "the error returned by Token() is only compared with nil: it is never sent, kept or told apart from the end of input, so damage between entries (a truncated stream, a stray tag) ends the parse without any error being reported"
 			}
 		}
+		// the same for the entry decoder: an error from DecodeElement that nobody looks at (the next Token call
+		// does not repeat a value-conversion failure) leaves a damaged entry unreported
+		eachInstr(parse, func(i ssa.Instruction) {
+			cl, ok := i.(*ssa.Call)
+			if !ok || stE == broken {
+				return
+			}
+			if n := calleeName(cl); n != "(*encoding/xml.Decoder).DecodeElement" && n != "(*encoding/xml.Decoder).Decode" {
+				return
+			}
+			used := false
+			if cl.Referrers() != nil {
+				for _, r := range *cl.Referrers() {
+					if _, isDbg := r.(*ssa.DebugRef); !isDbg {
+						used = true
+					}
+				}
+			}
+			if !used {
+				stE, whyE = broken, "the error returned by "+strings.TrimPrefix(calleeName(cl), "(*encoding/xml.Decoder).")+" is discarded: an entry that fails to decode (a malformed value, a truncated element) is delivered half-filled and no error is reported for it"
+			}
+		})
 		c.judge(stE, "LOOPEXIT", "only io.EOF ends the stream silently", tok.Pos(), "the only error not forwarded to the error channel is the end of input", whyE)
 	}
 	// GUARD: the entry send
